@@ -17,11 +17,10 @@ def violations_json(spec, out, limit=400):
         }
         h = ex["hist"]
         if h is not None:
-            if isinstance(h, tuple) and all(isinstance(i, int) for i in h):
+            try:
                 item["history"] = spec.ops(h)
                 item["snippet"] = spec.render(h)
-                item["feat"] = sorted(spec.features(h)) if hasattr(spec, "features") else []
-            else:
+            except Exception:
                 item["history"] = h
         if ex.get("extra"):
             item.update(ex["extra"])
